@@ -99,6 +99,8 @@ def run_case(ctx, case):
     L = lib()
     k = case['k']
     data = case.get('data', b'')
+    if isinstance(data, list):          # ['pattern', n, tail]: n patterned bytes + tail, kept symbolic so that the case stays small
+        data = bytes((i * 131 + 7) & 0xff for i in range(data[1])) + bytes(data[2])
     if k == 'leb':
         signed = case['signed']
         pos = case.get('pos', 0)
@@ -187,6 +189,23 @@ def run_case(ctx, case):
         _cmp(ctx, 'block|%s' % form, got, exp, case)
         ctx.case(('block', form, le, data), True, {'k': 'block', 'form': form, 'le': le, 'len': len(data), 'outcome': exp[0]})
         ctx.count('block.%s.%s' % (form, exp[0]))
+    elif k == 'blob':
+        # read_blob(stream, length): the operand bytes of implicit_value / const_type / entry_value, length read by the caller
+        from elftools.common.utils import read_blob
+        ln, pos = case['length'], case.get('pos', 0)
+        st = io.BytesIO(data)
+        st.seek(pos)
+        try:
+            r = read_blob(st, ln)
+            got = ('ok', list(r), st.tell())
+        except L.ELFParseError:
+            got = ('perr',)
+        except Exception as e:  # noqa
+            got = ('exc', e)
+        exp = ('ok', list(data[pos:pos + ln]), pos + ln) if pos + ln <= len(data) else ('perr',)
+        _cmp(ctx, 'read_blob', got, exp, case)
+        ctx.case(('blob', ln, pos, data), True, {'k': 'blob', 'length': ln, 'have': len(data) - pos, 'outcome': exp[0]})
+        ctx.count('blob.%s' % exp[0])
     elif k == 'rue':
         # RepeatUntilExcluding over single bytes with terminator value t
         t = case['t']
@@ -352,6 +371,18 @@ def sweep(tier):
                 hdr = ln.to_bytes(w, bo) if w else leb.uleb(ln)
                 for tail in (b'', b'\x01\x02\x03'):
                     cases.append({'k': 'block', 'le': le, 'form': form, 'data': hdr + tail})
+    # read_blob: complete, with trailing bytes, and every kind of shortfall
+    for ln in (0, 1, 2, 8, 127, 128, 300, 5000):
+        body = bytes((i * 29 + 3) & 0xff for i in range(ln))
+        for pos in (0, 3):
+            cases.append({'k': 'blob', 'length': ln, 'pos': pos, 'data': b'\xaa' * pos + body})
+            cases.append({'k': 'blob', 'length': ln, 'pos': pos, 'data': b'\xaa' * pos + body + b'\x01\x02'})
+            for short in (1, 2, ln // 2, ln):
+                if 0 < short <= ln:
+                    cases.append({'k': 'blob', 'length': ln, 'pos': pos, 'data': b'\xaa' * pos + body[:ln - short]})
+    # ... and blobs of 64 KiB, 1 MiB and 4 MiB (+ a few bytes) followed by other bytes: whatever piece size a reader uses internally
+    for ln in ((1 << 16) + 1, (1 << 20) + 3, (1 << 22) + 5):
+        cases.append({'k': 'blob', 'length': ln, 'pos': 0, 'data': ['pattern', ln, b'\x9f\x9f\x9f']})
     for t in (0, 0xff):
         for ln in (0, 1, 5, 64, 200):
             body = bytes(1 + (i % 200) for i in range(ln))
